@@ -1,6 +1,7 @@
 package simio
 
 import (
+	"bytes"
 	"encoding/json"
 	"fmt"
 
@@ -27,6 +28,7 @@ func DamageJSON(t *tape.Tape, data []byte) (out []byte, desc []string, kinds []s
 		return data, nil, nil
 	}
 	n := 1 + t.Weighted("jd.count", 3, 1)
+	var tailMembers []string // members appended after all others of the top-level object
 	for f := 0; f < n; f++ {
 		t.Begin("jd.one")
 		var slots []jsonSlot
@@ -72,7 +74,7 @@ func DamageJSON(t *tape.Tape, data []byte) (out []byte, desc []string, kinds []s
 			}
 		}
 		a := slots[t.Intn("jd.a", len(slots))]
-		op := t.Weighted("jd.op", 5, 3, 4, 2, 1, 1, 3)
+		op := t.Weighted("jd.op", 5, 3, 4, 2, 1, 1, 3, 3, 2)
 		switch op {
 		case 0: // misdirected write: a := copy of b
 			b := slots[t.Intn("jd.b", len(slots))]
@@ -113,6 +115,15 @@ func DamageJSON(t *tape.Tape, data []byte) (out []byte, desc []string, kinds []s
 					a = nums[t.Intn("jd.numslot", len(nums))]
 				}
 			}
+			if sv, ok := get(a).(string); ok && len(sv) <= 3 && t.Bool("jd.short.weird") {
+				// a delimiter-like value replaced by another delimiter-like value
+				shortWeird := []string{"", "\n", "\r", "\"", " ", "\x00", "ab", "é", "*", "|", "\r\n"}
+				v := shortWeird[t.Intn("jd.shortweird", len(shortWeird))]
+				set(a, v)
+				desc = append(desc, fmt.Sprintf("%s := %q", a.path, v))
+				kinds = append(kinds, "json-string-replaced")
+				break
+			}
 			switch get(a).(type) {
 			case string:
 				weird := []string{"", "*", ".", "..", "../..", "[", "(?", "\\", "//*", "0", "-1", " ", "a|b", "FINAL_OUTPUT", "int", "javascript",
@@ -129,10 +140,16 @@ func DamageJSON(t *tape.Tape, data []byte) (out []byte, desc []string, kinds []s
 			case float64:
 				// boundary numbers; integers are stored as int64 so that they are written without an exponent
 				nums := []interface{}{int64(0), int64(-1), int64(1), int64(2), int64(3), int64(1) << 31, int64(1)<<31 - 1, int64(1) << 32,
-					int64(1) << 62, int64(9223372036854775807), int64(9223372036854775806), int64(-9223372036854775808), 0.5, 1e18}
+					int64(1) << 62, int64(9223372036854775807), int64(9223372036854775806), int64(-9223372036854775808), 0.5, 1e18,
+					// integral values in spellings a JSON-schema "integer" accepts but Go's decoder refuses for int fields
+					json.RawMessage("1.0"), json.RawMessage("2.0"), json.RawMessage("1e0"), json.RawMessage("3e0"), json.RawMessage("9223372036854775808"), json.RawMessage("1e19")}
 				v := nums[t.Intn("jd.num", len(nums))]
 				set(a, v)
-				desc = append(desc, fmt.Sprintf("%s := %v", a.path, v))
+				if rm, ok := v.(json.RawMessage); ok {
+					desc = append(desc, fmt.Sprintf("%s := %s", a.path, string(rm)))
+				} else {
+					desc = append(desc, fmt.Sprintf("%s := %v", a.path, v))
+				}
 				kinds = append(kinds, "json-number-replaced")
 			case bool:
 				set(a, !get(a).(bool))
@@ -154,6 +171,96 @@ func DamageJSON(t *tape.Tape, data []byte) (out []byte, desc []string, kinds []s
 				m[nk] = v
 				desc = append(desc, fmt.Sprintf("%s renamed to %q", a.path, nk))
 				kinds = append(kinds, "json-member-renamed")
+			}
+		case 8: // a stale, damaged copy of a top-level section written under a near-identical name (case of one letter)
+			if top, ok := root.(map[string]interface{}); ok && len(top) > 0 {
+				keys := make([]string, 0, len(top))
+				for k := range top {
+					keys = append(keys, k)
+				}
+				sortStrings(keys)
+				k := keys[t.Intn("jd.cv.key", len(keys))]
+				var cp interface{}
+				raw, _ := json.Marshal(top[k])
+				_ = json.Unmarshal(raw, &cp)
+				// lose or null one member somewhere inside the copy
+				var inner []jsonSlot
+				var w2 func(v interface{}, path string)
+				w2 = func(v interface{}, path string) {
+					switch x := v.(type) {
+					case map[string]interface{}:
+						ks := make([]string, 0, len(x))
+						for kk := range x {
+							ks = append(ks, kk)
+						}
+						sortStrings(ks)
+						for _, kk := range ks {
+							inner = append(inner, jsonSlot{path: path + "." + kk, parent: x, key: kk})
+							w2(x[kk], path+"."+kk)
+						}
+					case []interface{}:
+						for i := range x {
+							w2(x[i], fmt.Sprintf("%s[%d]", path, i))
+						}
+					}
+				}
+				w2(cp, "$")
+				if len(inner) > 0 {
+					sl := inner[t.Intn("jd.cv.inner", len(inner))]
+					m := sl.parent.(map[string]interface{})
+					switch t.Intn("jd.cv.how", 3) {
+					case 0:
+						delete(m, sl.key)
+					case 1:
+						m[sl.key] = nil
+					default:
+						if _, isStr := m[sl.key].(string); isStr {
+							m[sl.key] = ""
+						} else {
+							m[sl.key] = nil
+						}
+					}
+				}
+				nk := []byte(k)
+				pos := t.Intn("jd.cv.pos", len(nk))
+				if nk[pos] >= 'a' && nk[pos] <= 'z' {
+					nk[pos] -= 32
+				} else if nk[pos] >= 'A' && nk[pos] <= 'Z' {
+					nk[pos] += 32
+				}
+				if string(nk) != k {
+					// stored AFTER the genuine section (decoders let the later of two matching keys win)
+					cb, _ := json.MarshalIndent(cp, " ", " ")
+					kb, _ := json.Marshal(string(nk))
+					tailMembers = append(tailMembers, string(kb)+": "+string(cb))
+					desc = append(desc, fmt.Sprintf("a damaged copy of section %q also stored as %q", k, string(nk)))
+					kinds = append(kinds, "json-case-variant-section")
+				}
+			}
+		case 7: // misdirected member: a member of one object also written into another object
+			var objs []jsonSlot
+			for _, sl := range slots {
+				if _, ok := get(sl).(map[string]interface{}); ok {
+					objs = append(objs, sl)
+				}
+			}
+			if len(objs) >= 2 {
+				dst := get(objs[t.Intn("jd.mm.dst", len(objs))]).(map[string]interface{})
+				src := get(objs[t.Intn("jd.mm.src", len(objs))]).(map[string]interface{})
+				keys := make([]string, 0, len(src))
+				for k := range src {
+					keys = append(keys, k)
+				}
+				sortStrings(keys)
+				if len(keys) > 0 {
+					k := keys[t.Intn("jd.mm.key", len(keys))]
+					var cp interface{}
+					raw, _ := json.Marshal(src[k])
+					_ = json.Unmarshal(raw, &cp)
+					dst[k] = cp
+					desc = append(desc, fmt.Sprintf("member %q (%s) also written into another object", k, clipJSON(raw)))
+					kinds = append(kinds, "json-misdirected-member")
+				}
 			}
 		case 6: // misdirected reference: a declaration replaced by a reference to a named top-level declaration
 			var names []string
@@ -196,6 +303,16 @@ func DamageJSON(t *tape.Tape, data []byte) (out []byte, desc []string, kinds []s
 	if err != nil {
 		return data, nil, nil
 	}
+	if len(tailMembers) > 0 {
+		if i := bytes.LastIndexByte(b, '}'); i > 0 {
+			nb := append([]byte{}, bytes.TrimRight(b[:i], " \n")...)
+			for _, m := range tailMembers {
+				nb = append(nb, (",\n " + m)...)
+			}
+			nb = append(nb, "\n}"...)
+			b = nb
+		}
+	}
 	return b, desc, kinds
 }
 
@@ -205,4 +322,11 @@ func sortStrings(a []string) {
 			a[j], a[j-1] = a[j-1], a[j]
 		}
 	}
+}
+
+func clipJSON(b []byte) string {
+	if len(b) > 60 {
+		return string(b[:60]) + "..."
+	}
+	return string(b)
 }
